@@ -112,6 +112,10 @@ def ensure_facts(config="default", repo=REPO, quiet=False):
         done_marker = os.path.join(facts_dir, "DONE")
         info = {"hash": h, "source_files_hashed": nfiles, "config": config, "cached": True}
         if os.path.exists(done_marker) and all(os.path.exists(os.path.join(facts_dir, c + ".json")) for c in want):
+            try:
+                os.utime(os.path.dirname(facts_dir))  # mark as recently used (see _prune)
+            except OSError:
+                pass
             return facts_dir, info
         info["cached"] = False
         if os.path.isdir(facts_dir):
@@ -134,12 +138,19 @@ def ensure_facts(config="default", repo=REPO, quiet=False):
         lock.close()
 
 
-def _prune(keep=40):
+def _prune(keep=40, min_age=1800):
+    """Removes old cache entries; never one that was used within the last half hour (another check may be reading it)."""
     root = os.path.join(CACHE, "facts")
     ds = [os.path.join(root, d) for d in os.listdir(root)]
     ds.sort(key=os.path.getmtime, reverse=True)
+    now = time.time()
     for d in ds[keep:]:
-        shutil.rmtree(d, ignore_errors=True)
+        try:
+            newest = max([os.path.getmtime(d)] + [os.path.getmtime(os.path.join(d, x)) for x in os.listdir(d)])
+        except OSError:
+            continue
+        if now - newest > min_age:
+            shutil.rmtree(d, ignore_errors=True)
 
 
 if __name__ == "__main__":
